@@ -155,3 +155,16 @@ func init() {
 		note: "partial: the selection predicate (ShouldGenerateInterface) is proved to be the property's iff verbatim for all flag/regex/name combinations; discovery (NodeVisitor.Visit, ParsePackages), the sub-package filter (subPackages closure, ShouldExcludeSubpkg), one-mock-per-configs-entry (InterfaceConfig.Initialize) and recursive expansion (RootConfig.Initialize inner loop) are proved; the AST walk itself and the expansion loop of Run are covered under C09/C10",
 	})
 }
+
+func init() {
+	register(&propInfo{
+		id:       "C08",
+		patterns: []string{"./config"},
+		trusted: []string{
+			"package reflect: ValueOf, Elem, Field, NumField, Kind, Type, Interface, IsNil, IsZero, CanSet, Set, New evaluated on static descriptors (DESIGN.md 3.5); the struct's field list comes from go/types on every run",
+			"template-data and _anchors values are trees as produced by the YAML decoder (ghost depth labelling TreeInv/AllTop/ghostFresh is a precondition of the merge functions); top-level maps of different config levels are distinct objects (hypothesis 'sep' of the key-by-key postconditions)",
+			"koanf/mapstructure/YAML decoding, the order of koanf.Load providers and the consumers of the effective values in RootApp.Run are outside this check (see C10 for the consumers)",
+		},
+		note: "partial: the merge machinery is proved field by field for the actual fields of config.Config: mergeConfigs (reflection resolved statically; pointer parameters: most specific level wins, otherwise a fresh copy; slices and typed maps inherited when unset; map[string]any merged key by key), mergeStringMaps (recursive, with loop invariants over a ghost visited set), and the three Initialize functions (which level is merged into which: call-site obligations; every level reached: loop invariants). Load order of defaults/env/file/flags and the read sites in Run are not covered here.",
+	})
+}
